@@ -1,6 +1,7 @@
 //! nbverif: pure executor. Reads cases on stdin, writes one observation line per case.
 mod html;
 mod list;
+mod prefix;
 mod util;
 
 fn main() {
@@ -14,6 +15,7 @@ fn main() {
     match args[1].as_str() {
         "html" => html::main(),
         "list" => list::main(),
+        "prefix" => prefix::main(),
         other => {
             eprintln!("unknown subcommand {other}");
             std::process::exit(2);
